@@ -14,10 +14,22 @@ if ! git apply "$src/patch.diff" 2>/tmp/seedchk-$id-$k.apply; then
   echo "$id m$k: PATCH DOES NOT APPLY"; git -C /repo worktree remove --force "$wt"; exit 1; fi
 timeout 120 /venv/bin/python "$src/demo.py" >/tmp/seedchk-$id-$k.mut 2>&1; m=$?
 tests="tests/test_taskgroups.py tests/test_synchronization.py tests/streams/test_memory.py tests/test_from_thread.py tests/test_to_thread.py tests/test_functools.py tests/test_itertools.py tests/streams/test_buffered.py tests/streams/test_text.py tests/streams/test_tls.py tests/test_eventloop.py tests/test_lowlevel.py tests/test_contextmanagers.py tests/test_pytest_plugin.py tests/test_debugging.py"
-timeout 1500 /venv/bin/python -m pytest -q -p no:cacheprovider --timeout=300 -n 3 $tests >/tmp/seedchk-$id-$k.tests 2>&1
+[ "$id" = "C18" ] && tests="$tests tests/test_sockets.py"
+timeout 2400 /venv/bin/python -m pytest -q -p no:cacheprovider --timeout=300 -n 3 $tests >/tmp/seedchk-$id-$k.tests 2>&1
 t=$(tail -1 /tmp/seedchk-$id-$k.tests)
-# tests that BASELINE.json lists as flaky do not count
-nf=$(grep "^FAILED\|^ERROR" /tmp/seedchk-$id-$k.tests | grep -v "test_dynamic_async_fixture_access_does_not_hang\|test_keyboardinterrupt_during_test" | wc -l)
+# only tests that BASELINE.json lists as stable passes count (no network / ipv6 here, some tests are flaky)
+nf=$(grep "^FAILED\|^ERROR" /tmp/seedchk-$id-$k.tests | python3 -c '
+import json, sys, re
+stable = set(eval(json.load(open("/root/.vp/BASELINE.json"))["stable_pass"])) if isinstance(json.load(open("/root/.vp/BASELINE.json"))["stable_pass"], str) else set(json.load(open("/root/.vp/BASELINE.json"))["stable_pass"])
+n = 0
+for line in sys.stdin:
+    m = re.match(r"(FAILED|ERROR) (\S+)", line)
+    if not m: continue
+    parts = m.group(2).split("::")
+    tid = parts[0][:-3].replace("/", ".") + ("." + ".".join(parts[1:-1]) if len(parts) > 2 else "") + "::" + parts[-1]
+    if tid in stable:
+        n += 1; print("stable test failed:", tid, file=sys.stderr)
+print(n)' 2>/tmp/seedchk-$id-$k.newfail)
 echo "$id m$k: demo_orig_exit=$o demo_mut_exit=$m tests: $t (failed lines: $nf)"
 if [ "$o" = "0" ] && [ "$m" != "0" ] && [ "$nf" = "0" ]; then
   d="/verif/seeded/$id-m$k"; mkdir -p "$d"; cp "$src/patch.diff" "$src/demo.py" "$src/meta.json" "$d/" 2>/dev/null
